@@ -285,7 +285,14 @@ static Probe probe(const Plan& plan, const Target& t) {
     }
     if (t.crash && l.compare(0, 6, "CRASH ") == 0) {
       // same kind of death, same owning property
-      if (contains(l, ("kind=" + t.oracle + " ").c_str()) && (t.prop.empty() || contains(l, ("owner=" + t.prop).c_str()))) {
+      bool owner_ok = t.prop.empty();
+      size_t op = l.find("owner=");
+      if (!owner_ok && op != std::string::npos) {
+        std::string owners = "+" + l.substr(op + 6) + "+";
+        while (!owners.empty() && (owners.back() == '\n' || owners.back() == ' ')) owners.pop_back();
+        owner_ok = owners.find("+" + t.prop + "+") != std::string::npos;
+      }
+      if (contains(l, ("kind=" + t.oracle + " ").c_str()) && owner_ok) {
         pr.hit = true;
         pr.msg = l;
       }
